@@ -32,7 +32,8 @@ TRUSTED = [
     "tied to the code by the differential correspondence of this run (lean/Drivers/Ctx.lean)",
     "modelled, not verified: contextvars.Context.run (mapping swapped in, writes land in that Context, caller's "
     "context restored), copy_context(), the coroutine-object envelope and generator semantics of __await__ "
-    "(PEP 479, GeneratorExit handling), PEP-380 delegation of the athrow()/aclose()/as_coroutine() wrappers",
+    "(PEP 479, GeneratorExit handling), PEP-380 delegation of the athrow()/aclose()/coro_await wrappers, "
+    "collections.abc.Coroutine.close() of the _Continuation object coro_eager hands to its Task",
 ]
 ASSUMPTIONS = [
     "the supplied Context is not the one the caller is currently running in (Context.run would raise RuntimeError)",
@@ -544,7 +545,7 @@ def oracle(real: Real, tags: set):
                                 expected=f"v{e[1]}={ref[e[1]]}", observed=f"v{e[1]}={e[2]}")
         if nseg > 1:
             tags.add("several-segments-in-one-call")
-        if kind == "newit" and idx + 1 < len(real.lines):
+        if kind == "newit" and real.kinds[:idx].count("newit") >= 1:
             tags.add("second-awaiter")
         o, _reads, cur, sup = out.split("|")
         cur = [int(x) for x in cur.split(",")]
